@@ -1055,7 +1055,7 @@ theorem acceptMove_spec {s : St} (h : CleanX Z s) {inj : Inj} {srv cli : Nat} {c
             (fun h => { h with readable := true, bound := !((s.h? srv).map (·.ipc)).getD false,
                                connected := !((s.h? srv).map (·.ipc)).getD false })
          CleanX Z t ∧ ¬ Own t.l.1 (.handle srv .acc) ∧ okO t (.handle srv .acc))) ∧
-      (let t := (s0.run [.closeOwner (.handle srv .acc) false]).setH srv (fun h => { h with listening := false })
+      (let t := (s0.run [.closeOwner (.handle srv .acc) false]).setH srv (fun h => { h with stalled := true })
        CleanX Z t ∧ ¬ Own t.l.1 (.handle srv .acc) ∧ okO t (.handle srv .acc)) := by
     intro s0 h0 hown hsrv0 hmono
     constructor
@@ -1290,7 +1290,7 @@ theorem serverReady_spec {s : St} {i : Nat} (h : serverReady s = some i) :
   | none => simp [hl] at this
   | some hh =>
     simp only [hl, Bool.and_eq_true, Bool.not_eq_true'] at this
-    exact ⟨hh, rfl, this.1.1.1, this.2⟩
+    exact ⟨hh, rfl, this.1.1.1.1, this.2⟩
 
 theorem ipcReady_spec {s : St} {i : Nat} (h : ipcReady s = some i) :
     ∃ hh, s.liveH i = some hh ∧ hh.kind = .pipe := by
@@ -1424,6 +1424,18 @@ theorem recvQueue_spec (inj : Inj) (i : Nat) (n : Nat) (j : Nat) (s : St) (err :
           · obtain ⟨a, b, c⟩ := ih (j + 1) _ false (hmoveq _ h hk) (by simpa using hk)
             exact ⟨a, b, by rw [c]; simp⟩
 
+theorem ipcAcceptAll_spec (inj : Inj) (i : Nat) (n : Nat) (s : St) (h : CleanX Z s)
+    (hk : kindOf s.hs i = some .pipe) (hlo : s.loopOk = true) :
+    CleanX Z (ipcAcceptAll inj i n s) ∧ kindOf (ipcAcceptAll inj i n s).hs i = some .pipe ∧
+      (ipcAcceptAll inj i n s).loopOk = true := by
+  induction n generalizing s with
+  | zero => exact ⟨h, hk, hlo⟩
+  | succ n ih =>
+    simp only [ipcAcceptAll]
+    split
+    · exact ⟨h, hk, hlo⟩
+    · exact ih _ (clean_cbAccept h hlo ⟨.pipe, hk, rfl⟩) (cbAccept_kindOf hk) (by simpa using hlo)
+
 theorem clean_ipcEvent {s : St} (h : CleanX Z s) (hlo : s.loopOk = true) (inj : Inj) {i : Nat}
     (hr : ipcReady s = some i) : CleanX Z (ipcEvent s inj i) ∧ (ipcEvent s inj i).loopOk = true := by
   obtain ⟨hh, hl, hkp⟩ := ipcReady_spec hr
@@ -1452,13 +1464,8 @@ theorem clean_ipcEvent {s : St} (h : CleanX Z s) (hlo : s.loopOk = true) (inj : 
         (recvCreate 0 batch (s.setH i (fun h => { h with inflight := h.inflight.tail }))) false).1.say s!"cb read h{i} 1") :=
       ⟨q1.say _, by simpa using q2, by simpa using hloq⟩
     split
-    · have h3 := foldl_pres P (fun s k => if (!s.has (.handle i .acc)) = true then s else cbAccept s inj i k (isStream k))
-        batch _ h2 (by
-          intro a k ⟨ha, hka, hla⟩
-          split
-          · exact ⟨ha, hka, hla⟩
-          · exact ⟨clean_cbAccept ha hla (hokq a hka .acc), cbAccept_kindOf hka, by simpa using hla⟩)
-      exact ⟨h3.1, h3.2.2⟩
+    · obtain ⟨a3, _, c3'⟩ := ipcAcceptAll_spec inj i _ _ h2.1 h2.2.1 h2.2.2
+      exact ⟨a3, c3'⟩
     · exact ⟨h2.1, h2.2.2⟩
 
 theorem clean_runLoop (inj : Inj) (n : Nat) (s : St) (h : CleanX Z s) (hlo : s.loopOk = true) :
